@@ -1250,6 +1250,7 @@ LinkLayerPrimaryBalanced_handleMessage(LinkLayerPrimaryBalanced self, uint8_t fc
 
             self->lastSendTime = Hal_getMonotonicTimeInMs();
             self->waitingForResponse = true;
+            self->nextFcb = true;
             newState = PLL_EXECUTE_RESET_REMOTE_LINK;
             llpb_setNewState(self, LL_STATE_BUSY);
         }
@@ -1339,6 +1340,7 @@ LinkLayerPrimaryBalanced_runStateMachine(LinkLayerPrimaryBalanced self)
 
             self->lastSendTime = currentTime;
             self->waitingForResponse = true;
+            self->nextFcb = true;
             newState = PLL_EXECUTE_RESET_REMOTE_LINK;
         }
 
@@ -1847,6 +1849,7 @@ LinkLayerSlaveConnection_HandleMessage(LinkLayerSlaveConnection self, uint8_t fc
 
             self->lastSendTime = Hal_getMonotonicTimeInMs();
             self->waitingForResponse = true;
+            self->nextFcb = true;
             newState = PLL_EXECUTE_RESET_REMOTE_LINK;
 
             llsc_setState(self, LL_STATE_BUSY);
